@@ -29,6 +29,7 @@ type filePeer struct {
 	reorders   int
 	emptyData  bool   // answer READ with empty DATA (never at EOF)
 	failClose  uint32 // non-zero: CLOSE is answered with this status code
+	arrivals   []byte // the order in which requests carrying the handle ('r') and CLOSE requests ('c') arrived
 }
 
 func (p *filePeer) attrsBody() []byte {
@@ -56,6 +57,12 @@ func (p *filePeer) handle(fr *rawResp) []byte {
 		s := string(body[4 : 4+l])
 		body = body[4+l:]
 		return s, true
+	}
+	switch fr.Typ {
+	case fxpFstat, fxpFsetstat, fxpRead, fxpWrite:
+		p.arrivals = append(p.arrivals, 'r')
+	case fxpClose:
+		p.arrivals = append(p.arrivals, 'c')
 	}
 	switch fr.Typ {
 	case fxpOpen:
